@@ -1009,7 +1009,7 @@ def translate(text, roots=None, rename=None, stubs=(), model='bit', shrink=(), d
     out += ["/* helper aggregate types */"] + order_typedefs(em.typedefs, emitted)
     # stable aliases for the (numbered, link-order dependent) aggregate types in the signatures of the roots
     argt = []
-    for n in (roots or []):
+    for n in list(roots or []) + sorted(stubs):
         f = m.funcs.get(n)
         if not f: continue
         for i, (t, _) in enumerate(f['params']):
